@@ -188,6 +188,7 @@ func (c *Conn) WalOpen() syscall.Errno {
 	if e != 0 {
 		return e
 	}
+	wf.ownerTape = c.T
 	w.walf = wf
 	sf, e := c.k.Open(c.DB+"-shm", os.O_RDWR|os.O_CREATE, c.Owner)
 	if e != 0 {
@@ -418,7 +419,7 @@ func (c *Conn) WalBeginRead() (string, syscall.Errno) {
 			}
 		}
 		if slot == 0 {
-			start := 1 + c.r.Tape.Next(4)
+			start := 1 + c.T.Next(4)
 			for k := 0; k < 4 && slot == 0; k++ {
 				i := 1 + (start-1+k)%4
 				if e := c.shmLock(fuse.LockWrite, walRead0+i, 1); e == 0 {
@@ -615,7 +616,7 @@ func (c *Conn) walRestartLog() (string, syscall.Errno) {
 	if ci.nBackfill > 0 {
 		if e := c.shmLock(fuse.LockWrite, walRead0+1, 4); e == 0 {
 			c.r.Count("wal.restart")
-			if e := c.walRestartHdr(uint32(c.r.Tape.Next(1 << 30))); e != 0 {
+			if e := c.walRestartHdr(uint32(c.T.Next(1 << 30))); e != 0 {
 				return "restart-hdr", e
 			}
 			c.shmLock(fuse.LockUnlock, walRead0+1, 4)
@@ -655,6 +656,9 @@ func (c *Conn) WalWriteTx(prog WalTxProgram, ref *Image) TxResult {
 	}
 	if prog.Outcome == OutLockOnly {
 		c.WalEndWrite()
+		if c.OnFinalized != nil {
+			c.OnFinalized()
+		}
 		c.WalEndRead()
 		return TxResult{Outcome: OutLockOnly}
 	}
@@ -699,6 +703,10 @@ func (c *Conn) WalWriteTx(prog WalTxProgram, ref *Image) TxResult {
 	}
 	sort.Slice(dirty, func(a, b int) bool { return dirty[a] < dirty[b] })
 
+	if c.OnNewImage != nil && prog.Outcome == OutCommit {
+		c.OnNewImage(newIm)
+	}
+
 	// frame sequence: earlier (spilled) versions of repeated pages first
 	type frame struct {
 		pg   uint32
@@ -739,7 +747,7 @@ func (c *Conn) WalWriteTx(prog WalTxProgram, ref *Image) TxResult {
 		binary.BigEndian.PutUint32(wh[8:], c.PageSize)
 		binary.BigEndian.PutUint32(wh[12:], w.nCkpt)
 		if w.nCkpt == 0 {
-			w.hdr.salt = [2]uint32{uint32(c.r.Tape.Next(1<<30)) + 1, uint32(c.r.Tape.Next(1 << 30))}
+			w.hdr.salt = [2]uint32{uint32(c.T.Next(1<<30)) + 1, uint32(c.T.Next(1 << 30))}
 		}
 		binary.BigEndian.PutUint32(wh[16:], w.hdr.salt[0])
 		binary.BigEndian.PutUint32(wh[20:], w.hdr.salt[1])
@@ -794,6 +802,9 @@ func (c *Conn) WalWriteTx(prog WalTxProgram, ref *Image) TxResult {
 		// ROLLBACK after spilling frames: the wal-index is left alone
 		c.r.Count("wal.rollback-frames")
 		c.WalEndWrite()
+		if c.OnFinalized != nil {
+			c.OnFinalized()
+		}
 		c.WalEndRead()
 		w.idxValid = false
 		return TxResult{Outcome: OutRollback}
@@ -821,6 +832,9 @@ func (c *Conn) WalWriteTx(prog WalTxProgram, ref *Image) TxResult {
 	}
 	if c.OnCommitPoint != nil {
 		c.OnCommitPoint()
+	}
+	if c.OnFinalized != nil {
+		c.OnFinalized()
 	}
 	c.WalEndRead()
 	return TxResult{Outcome: OutCommit, After: newIm, WalFirstFrame: firstFrame, WalFrames: len(frames), WalSalt: w.hdr.salt}
@@ -971,7 +985,7 @@ func (c *Conn) WalCheckpoint(mode string) (string, syscall.Errno) {
 	}
 	w.hdr = h
 	if mode == CkptTruncate {
-		if e := c.walRestartHdr(uint32(c.r.Tape.Next(1 << 30))); e != 0 {
+		if e := c.walRestartHdr(uint32(c.T.Next(1 << 30))); e != 0 {
 			c.shmLock(fuse.LockUnlock, walRead0+1, 4)
 			return "ckpt-restart-hdr", e
 		}
